@@ -60,6 +60,22 @@ func (c *zzClient) last(uri protocol.DocumentURI) *protocol.PublishDiagnosticsPa
 	return nil
 }
 
+// zzWaited runs f (a notification that starts background work) and, natively, waits until the
+// goroutines it spawned are gone, the client staying attached: "the notification, then the
+// work it triggers, then the next event". Under the engine the spawned work is queued; the
+// caller runs the queue.
+func zzWaited(s *Server, f func()) {
+	if zzverif.Engine() {
+		f()
+		return
+	}
+	base := runtime.NumGoroutine()
+	f()
+	for i := 0; i < 5000 && runtime.NumGoroutine() > base; i++ {
+		time.Sleep(time.Millisecond)
+	}
+}
+
 // zzNotify sends a notification. Under the engine the goroutine it spawns is a queued task the
 // harness runs explicitly; natively the goroutine is muted (zzMuted) and the harness calls
 // publishDiagnostics itself, so that no analysis runs concurrently with the harness.
